@@ -179,9 +179,13 @@ func (aquahash *Aquahash) verifyHeaderWorker(chain consensus.ChainReader, header
 			grandparent = chain.GetHeader(parent.ParentHash, headers[0].Number.Uint64()-2)
 		}
 	} else if index == 1 {
-		parent = headers[0]
-		if parent.Number.Uint64() > 1 {
-			grandparent = chain.GetHeader(parent.ParentHash, parent.Number.Uint64()-1)
+		// as for every later index, the previous header is the parent only if the
+		// batch really links to it
+		if headers[0].Hash() == headers[1].ParentHash {
+			parent = headers[0]
+			if parent.Number.Uint64() > 1 {
+				grandparent = chain.GetHeader(parent.ParentHash, parent.Number.Uint64()-1)
+			}
 		}
 	} else if headers[index-1].Hash() == headers[index].ParentHash {
 		parent = headers[index-1]
